@@ -97,16 +97,18 @@ def HostMap.addHostInfo (m : HostMap) (hi : HostInfo) : HostMap :=
   { m1 with indexes := ainsert hi.localIndex hi m1.indexes,
             remoteIndexes := ainsert hi.remoteIndex hi m1.remoteIndexes }
 
+/-- the loop body of unlockedMakePrimary for one address -/
+def HostMap.promoteAt (m : HostMap) (hi : HostInfo) (a : Addr) : HostMap :=
+  match m.primary a with
+  | some p => if p.id == hi.id then m else m.setList a (hi :: eraseHI (m.getList a) hi.id)
+  | none => m.setList a [hi]
+
 /-- unlockedMakePrimary -/
 def HostMap.makePrimary (m : HostMap) (hi : HostInfo) : HostMap :=
   match alookup hi.localIndex m.indexes with
   | none => m
   | some h =>
-    if h.id != hi.id then m else
-    hi.vpnAddrs.foldl (fun m a =>
-      match m.primary a with
-      | some p => if p.id == hi.id then m else m.setList a (hi :: eraseHI (m.getList a) hi.id)
-      | none => m.setList a [hi]) m
+    if h.id != hi.id then m else hi.vpnAddrs.foldl (fun m a => m.promoteAt hi a) m
 
 /-! ### lighthouse remote cache (RemoteList objects shared by pointer) -/
 
